@@ -54,7 +54,7 @@ class Run:
         self.model_ok = all(core.vo_exists(m) for m in P.MODULES)
         self.proof_ok = (not self.undischarged) and (not self.forbidden)
         if self.tier == "thorough" and getattr(P, "COQCHK", True):
-            self.coqchk = run_coqchk(P.PROPS_MODULE, self.log)
+            self.coqchk = run_coqchk(P.PROPS_MODULE.split()[0], self.log)
             if self.coqchk.get("ok") is False:
                 self.proof_ok = False
                 self.undischarged.append(("coqchk", self.coqchk.get("tail", "")))
